@@ -496,6 +496,31 @@ NOISE_OVERRIDE = None      # C15: force the set of additional traits (None = use
 VIA_MACRO_P = 0.15
 
 
+def assign_discriminants(rng, td, hi=100):
+    """explicit discriminants on some variants of an enum, in no particular order (decreasing runs included, so that
+    `written value + position` coincides for different variants now and then); every value stays distinct and within 0..hi.
+    Legal on fieldless enums, or together with a primitive #[repr] (the caller adds it)."""
+    used = set()
+    cur = None
+    pool = list(range(0, min(hi, 24)))
+    rng.shuffle(pool)
+    if rng.random() < 0.4:
+        pool.sort(reverse=True)            # strictly decreasing written values
+    for k, v in enumerate(td.variants):
+        nxt = 0 if cur is None else cur + 1
+        if rng.random() < 0.6 or nxt in used or nxt > hi:
+            cand = [d for d in pool if d not in used and d + (len(td.variants) - k) <= hi]
+            if not cand:
+                break
+            d = cand[0]
+            pool.remove(d)
+            v.disc = d
+            cur = d
+        else:
+            cur = nxt
+        used.add(cur)
+
+
 def finalize_attrs(rng, td, noise=()):
     """Compose each position's metas into #[educe(...)] attributes: one list or several stacked
     attributes, other educed traits' attributes before/after, plain attributes interleaved."""
@@ -504,6 +529,15 @@ def finalize_attrs(rng, td, noise=()):
     # derive then sees every field type inside a None-delimited group (syn::Type::Group)
     if not hasattr(td, "via_macro"):
         td.via_macro = srng.random() < VIA_MACRO_P and td.kind != "union" and not getattr(td, "no_macro", False)
+    # now and then an enum carries written discriminants (and the primitive repr they need next to fields): irrelevant to
+    # every trait but the ordering ones, whose generators draw their own
+    if (td.kind == "enum" and len(td.variants) >= 2 and srng.random() < 0.1 and not getattr(td, "own_discriminants", False)
+            and all(v.disc is None for v in td.variants) and not any("repr" in a for a in td.attr_src)):
+        all_unit = all(v.shape == "unit" for v in td.variants)
+        r = srng.choice([None, "u8", "i32", "isize"]) if all_unit else srng.choice(["u8", "i32", "isize"])
+        assign_discriminants(srng, td)
+        if r:
+            td.attr_src.append("#[repr(%s)]" % r)
     if NOISE_OVERRIDE is not None:
         present = set(re.findall(r"(?:^|,)\s*([A-Z][A-Za-z]*)", ",".join(re.sub(r"\([^()]*(?:\([^()]*\)[^()]*)*\)", "", t) for t in td.traits)))
         noise = [t for t in NOISE_OVERRIDE if t not in present and not (t in ("PartialEq", "Hash") and td.kind == "union")]
